@@ -274,8 +274,67 @@ def _method_events(args):
 KNOWN_INTERNAL = {}
 
 
+def _parent_space():
+    """ParentAlg!ArgSpace, enumerated in the same way"""
+    ids, types, strands = ["", "a", "b"], ["", "chromosome", "sequence_chunk"], ["", "+", "-"]
+    locs = [[]] + [[e, s, i, t] for e in (2, 5) for s in "+-." for i in ids for t in ("", "chromosome")]
+    seqs = [[]] + [[n, i, t] for n in (3, 6) for i in ids for t in types]
+    return [[i, t, s, l, q, p] for i in ids for t in types for s in strands for l in locs for q in seqs for p in ("", "P")]
+
+
+def _parent_events(space):
+    setup_repo_import()
+    from inscripta.biocantor.location.location_impl import SingleInterval
+    from inscripta.biocantor.location.strand import Strand
+    from inscripta.biocantor.parent import Parent
+    from inscripta.biocantor.sequence import Sequence
+    from inscripta.biocantor.sequence.alphabet import Alphabet
+
+    S = {"+": Strand.PLUS, "-": Strand.MINUS, ".": Strand.UNSTRANDED}
+
+    def mk_loc(l):
+        if not l:
+            return None
+        lp = Parent(id=l[2] or None, sequence_type=l[3] or None) if (l[2] or l[3]) else None
+        return SingleInterval(0, l[0], S[l[1]], parent=lp)
+
+    def proj(p):
+        return [p.id or "", str(p.sequence_type.value if hasattr(p.sequence_type, "value") else p.sequence_type or ""),
+                p.strand.to_symbol() if p.strand is not None else "", p.location.end if p.location is not None else -1,
+                len(p.sequence) if p.sequence is not None else -1, (p.parent.id or "") if p.parent is not None else ""]
+
+    def oc(fn):
+        return E.outcome(fn, lambda r: (proj(r),))
+
+    ev = []
+    for a in space:
+        i, t, s, l, q, par = a
+        root = Parent(id="root", sequence_type="chromosome", sequence=Sequence("ACGT", Alphabet.NT_STRICT)) if par else None
+        seq = Sequence("ACGTAC"[:q[0]], Alphabet.NT_STRICT, id=q[1] or None, type=q[2] or None) if q else None
+        holder = []
+        o = oc(lambda: holder.append(Parent(id=i or None, sequence_type=t or None, strand=S[s] if s else None,
+                                            location=mk_loc(l), sequence=seq, parent=root)) or holder[0])
+        if not holder:
+            ev.append(["parent", a, o, ["x", "-"], [], []])
+            continue
+        p = holder[0]
+        resets = [[l2, oc(lambda l2=l2: p.reset_location(mk_loc(l2)))]
+                  for l2 in ([], [2, "-", "", ""], [9, "+", "", ""], [2, "+", "b", ""], l)]
+        anc = [[ty, inc, oc(lambda ty=ty, inc=inc: p.first_ancestor_of_type(ty, include_self=inc)),
+                E.outcome(lambda ty=ty, inc=inc: p.has_ancestor_of_type(ty, include_self=inc))]
+               for ty in ("chromosome", "sequence_chunk", "x") for inc in (True, False)]
+        ev.append(["parent", a, o, oc(p.strip_location_info), resets, anc])
+    return ev
+
+
 def _corrupt(ev, rnd):
     """binding control: the observed outcome replaced by an internal error / the returned location made ill-formed"""
+    if ev[0] == "parent":
+        if ev[2][0] == "v":
+            ev[2] = ["v", [ev[2][1][0] + "z"] + ev[2][1][1:]]
+        else:
+            ev[2] = ["x", "KeyError"]
+        return ev
     if ev[0] in ("ctor", "call"):
         ev[4] = ["x", rnd.choice(["AttributeError", "IndexError", "KeyError", "StopIteration"])]
         return ev
@@ -310,16 +369,32 @@ def run(chk):
     evs = [e for p in parts for e in p]
     parts = pmap(_method_events, [(chk.seed * 1009 + i, 2 if quick else 25, 6 if quick else 14) for i in range(32)])
     evs += [e for p in parts for e in p]
+    # the Parent record algebra: the whole argument space of ParentAlg performed on the real class
+    chk.mc("ParentMC", "ParentMC.cfg", workers=1, note="laws of the Parent algebra over the complete argument space: strip is "
+           "total, reset(None) = strip, reset(own location) = identity, strand follows the location, ids never invented")
+    chk.mc("ParentMC", "ParentMC_neg.cfg", expect_violation=True, workers=1,
+           note="an explicit strand that overrides the location's strand")
+    space = _parent_space()
+    if quick:
+        space = rnd.sample(space, 6000)
+    parts = pmap(_parent_events, [space[i::32] for i in range(32)])
+    pevs = [e for p in parts for e in p]
+    if not quick:
+        pevs.append(["parentcert", len(pevs)])
     chk.validate("C19Trace", evs, shard=6000, label="validity", keyfn=_key, corrupt=_corrupt)
+    chk.validate("C19Trace", pevs, shard=1500, label="parent-algebra", corrupt=_corrupt)
+    chk.extra["parent_argument_tuples"] = len(pevs)
+    evs = evs + pevs
     chk.nontrivial = len({json.dumps(e[1:4]) for e in evs})
     chk.extra["fault_cases_from_tlc"] = len([c for c in cases if c[1] != "random"])
     chk.extra["random_ctor_tuples"] = len([c for c in cases if c[1] == "random"])
     chk.extra["method_calls"] = sum(1 for e in evs if e[0] == "call")
     chk.extra["distinct_methods"] = len({(e[1], e[2]) for e in evs if e[0] == "call"})
     chk.trusted += ["TLC", "Validity.tla (Valid predicates from the docstrings)", "harness constructors from abstract "
-                    "argument tuples", "argument-domain table of the method caller"]
+                    "argument tuples", "argument-domain table of the method caller", "ParentAlg.tla (constructor rules transcribed from parent.py)"]
     return chk.finish("constructors of 11 classes on every TLC-enumerated (valid seed, corruption kind) and on random "
                       "argument tuples; every public method and property of valid locations, sequences, CDSs, transcripts, "
                       "genes and collections (random structures, chromosome or chunk parents) with in-range and boundary "
-                      "arguments (-1, 0, 1, len-1, len, len+1, all strands, both flag values); distinct = distinct "
-                      "(class/kind, method, arguments)")
+                      "arguments (-1, 0, 1, len-1, len, len+1, all strands, both flag values); the Parent constructor, "
+                      "strip_location_info, reset_location, first/has_ancestor_of_type on the argument space of ParentAlg "
+                      "(37 962 tuples; quick: 6 000 sampled); distinct = distinct (class/kind, method, arguments)")
